@@ -12,6 +12,7 @@ var borrowed = []struct{ dst, src, engine string }{
 	{"C07", "C15", "coop"}, // concurrent loads of the system rule set: what is remembered as loaded is what gates inbound traffic
 	{"C03", "C12", "coop"}, // the breaker's state machine under concurrent callers
 	{"C02", "C09", "coop"}, // the window a reject rule reads must not lose / invent tokens around a bucket rollover
+	{"C15", "C14", "seq"},  // "updating the rules of one resource never affects decisions on another": loads / clears of a referenced resource
 	{"C16", "C01", "par"},  // "told of completion exactly once" also when Exit is called from two goroutines at once
 	{"C08", "C09", "coop"}, // "nothing inside the window is lost" also when the rollover is contended
 }
